@@ -1,7 +1,88 @@
+import MesonModel.Fmt.Tree
+import MesonModel.Generated.FmtTables
 import Driver.Proto
-/- driver commands of area `fmt` (stub until the area is built) -/
+/- driver commands of area `fmt` (C16): translation-validation checker and the modelled rewriting decisions -/
 namespace Driver.Fmt
+open MesonModel.Fmt MesonModel.Generated.FmtTables Driver
 
-def handle (cmd : String) (fs : List String) : String := "bad-op"
+/-- one serialised node header `kind:flags:nkids:text:ws` -/
+structure Hdr where
+  kind : Kind
+  flags : Nat
+  nkids : Nat
+  text : List Char
+  ws : List Char
+
+def parseHdr (s : String) : Option Hdr :=
+  match s.splitOn ":" with
+  | [k, fl, n, tx, ws] =>
+    match k.trimAscii.toString.toNat?, fl.trimAscii.toString.toNat?, n.trimAscii.toString.toNat? with
+    | some k, some fl, some n => some ⟨Kind.ofIdx k, fl, n, decodeStr tx, decodeStr ws⟩
+    | _, _, _ => none
+  | _ => none
+
+mutual
+partial def parseTree : List Hdr → Option (Tree × List Hdr)
+  | [] => none
+  | h :: rest =>
+    match parseKids h.nkids rest with
+    | some (kids, rest') => some (.node h.kind h.flags h.text kids h.ws, rest')
+    | none => none
+partial def parseKids : Nat → List Hdr → Option (List Tree × List Hdr)
+  | 0, rest => some ([], rest)
+  | n + 1, rest =>
+    match parseTree rest with
+    | some (t, rest') =>
+      match parseKids n rest' with
+      | some (ts, rest'') => some (t :: ts, rest'')
+      | none => none
+    | none => none
+end
+
+def readTree (f : String) : Option Tree :=
+  match (f.splitOn ",").mapM parseHdr with
+  | some hs =>
+    match parseTree hs with
+    | some (t, []) => some t
+    | _ => none
+  | none => none
+
+def flagBool (s : String) : Bool := s.trimAscii.toString == "1"
+
+def showStrNode (n : StrNode) : String :=
+  s!"{boolStr n.multi};{boolStr n.fstr};{encodeStr (printStr n)}"
+
+def handle (cmd : String) (fs : List String) : String :=
+  match cmd, fs with
+  | "check", [so, a, b] =>
+    match readTree a, readTree b with
+    | some ta, some tb => s!"S{boolStr (sameProgram (flagBool so) ta tb)}C{boolStr (sameComments ta tb)}"
+    | _, _ => "bad-tree"
+  | "coms", [a] =>
+    match readTree a with
+    | some t => encodeStrList (comments t)
+    | none => "bad-tree"
+  | "simp", [on, raw, multi, fstr] =>
+    showStrNode (simplify simplifyExcluded fstringMarkers (flagBool on) (parseStr (decodeStr raw) (flagBool multi) (flagBool fstr)))
+  | "den", [raw, multi, fstr] =>
+    let d := denote (parseStr (decodeStr raw) (flagBool multi) (flagBool fstr))
+    s!"{encodeStr d.1};{boolStr d.2};{boolStr (plainLexable (decodeStr raw))}"
+  | "sort", [l] =>
+    encodeStrList (sortByKey (fun s => argKey (some s)) (decodeStrList l))
+  | "keyle", [a, b] => boolStr (keyLe (pathKey (decodeStr a)) (pathKey (decodeStr b)))
+  | "flat", [a] =>
+    match readTree a with
+    | some t =>
+      match flattenFiles t with
+      | some t' => "1;" ++ " ".intercalate ((Skel.encodeList (erase t')).map toString)
+      | none => "0;" ++ " ".intercalate ((Skel.encodeList (erase t)).map toString)
+    | none => "bad-tree"
+  | "skel", [a] =>
+    match readTree a with
+    | some t => " ".intercalate ((Skel.encodeList (erase t)).map toString)
+    | none => "bad-tree"
+  | "tables", _ =>
+    s!"{encodeStr simplifyExcluded};{encodeStr fstringMarkers};{boolStr (simplifyExcluded.contains '\\')}"
+  | _, _ => "bad-op"
 
 end Driver.Fmt
